@@ -30,6 +30,10 @@ structure HashLaws (H : HashOps) : Prop where
   sha_len : ∀ d, (H.sha256 d).length = 32
   rmd_len : ∀ d, (H.ripemd160 d).length = 20
 
+structure NetLaws (N : NetOps) : Prop where
+  priv_len : N.privVersion.length = 4
+  pub_len : ∀ v w, N.pubVersion v = some w → w.length = 4
+
 namespace Toy
 
 /-- toy group: ℤ/n with generator 1 (n = the real secp256k1 order, any n with 0 < n ≤ 2^256 would do) -/
@@ -99,6 +103,14 @@ theorem hashLaws : HashLaws hash where
   hmac_len k d := by simp [hash, GoSlice.zeros]; omega
   sha_len d := by simp [hash, GoSlice.zeros]
   rmd_len d := by simp [hash, GoSlice.zeros]
+
+theorem netLaws : NetLaws net where
+  priv_len := rfl
+  pub_len v w h := by
+    simp only [net] at h
+    split at h
+    · cases h; rfl
+    · cases h
 
 end Toy
 end MW
